@@ -73,7 +73,8 @@ def run(ctx):
                          tags_of=lambda g, e, v: dict(D.tags_of(g, e, v), cfg=g.name.split('-')[1] if '-' in g.name else g.name,
                                                       tb=e.get('tb', ''), out=e['out']))
     t16 = sum(len(g.events) for g in groups if g.name.startswith('t16-'))
-    ctx.exhaustive = True
+    ctx.exhaustive = False
+    ctx.extra['exhaustive_subspaces'] = ['all 2^16 16-bit Thumb words (x IT positions per tier)']
     ctx.extra['t16_words_x_itpos_events'] = t16
     ctx.extra['rule'] = ('all 2^16 16-bit Thumb words (quick: one IT position per word, thorough: outside / inside / '
                          'last), random + pattern-filled ARM and 32-bit Thumb words, random programs; modes usr/svc/'
